@@ -426,6 +426,25 @@ def oracle(case):
 				except InvalidHeader:
 					continue
 				return {'what': 'Headers.fromkeys() accepts the invalid field name %r' % (n_,), 'finding': None}
+		# a collection assigned to a message from a plain CaseInsensitiveDict / dict (message.headers = mapping): the same name rules and spellings
+		from httoop import Request as _Rq
+		from httoop.util import CaseInsensitiveDict as _CID
+		for mk_ in (lambda d_: _CID(d_), lambda d_: dict(d_)):
+			rq_ = _Rq()
+			rq_.headers = mk_({'ETag': b'"x"', 'content-md5': b'abc', 'TE': b'trailers', 'X-Plain': b'1'})
+			for n_ in (b'etag', b'ETAG', b'Content-MD5', b'CONTENT-md5', b'te', b'x-PLAIN'):
+				if n_ not in rq_.headers or rq_.headers.getbytes(n_) is None:
+					return {'what': 'message.headers = mapping: the field is not found under the spelling %r: %r' % (n_, dict(dict.items(rq_.headers))), 'finding': None}
+			rq_.headers[b'etag'] = b'"y"'
+			if len(rq_.headers) != 4 or rq_.headers.getbytes('ETag') != b'"y"':
+				return {'what': 'message.headers = mapping, then an assignment in another letter case: %r' % (dict(dict.items(rq_.headers)),), 'finding': None}
+			for badn in ('x bad', 'a:b'):
+				try:
+					rq2_ = _Rq()
+					rq2_.headers = mk_({badn: b'v'})
+				except InvalidHeader:
+					continue
+				return {'what': 'message.headers = mapping accepts the invalid field name %r' % (badn,), 'finding': None}
 		# one name twice in a constructor argument, in different letter case: the later value, whatever the spellings
 		for first_, second_ in ((b'x-request-id', b'X-Request-Id'), (b'X-Request-Id', b'x-request-id'), (b'ETAG', b'ETag'), (b'content-md5', b'Content-MD5')):
 			for mk in (lambda prs: Headers(prs), lambda prs: Headers(iter(prs))):
